@@ -54,6 +54,10 @@ structure Lib where
   timeAdd : String → String → String                      -- ts.Add(d).Format(time.RFC3339)
   csvHeader : String → Option (Option (List String))      -- first Read(): none = io.EOF, some none = error, some (some h)
   csvAll : String → Nat → CsvRead                         -- every Read() with FieldsPerRecord = n (header first)
+  fmtInt : String → Int → String                          -- fmt.Sprintf(verb, *big.Int)
+  fmtFloat : String → Num → String                        -- fmt.Sprintf(verb, *big.Float)
+  textG : Num → String                                    -- bf.Text('g', -1)
+  jsonStr : String → String                               -- cty/json.Marshal(cty.StringVal(s), cty.String)
 
 /-! ### one-call functions -/
 
